@@ -136,6 +136,27 @@ def run_K(R, N, spacing, shape, pl, tier, only=None):
                 eff = None if got is None else eff
             judge(R, 'K:' + cls_name, k, got if got is not None else None, Ts, Tref,
                   [k], dict(kind='K', desc=desc, what=str(desc)), lambda p: True)
+    # a declared range that does NOT contain the whole table: the constructor
+    # may refuse it; if an object comes out, it is judged like any other
+    if len(Ts) >= 3 and Ts[0] <= Tref <= Ts[-1]:
+        lo_n = max(Ts[0] + 1.0, min(Tref, Ts[1]) - 0.0) if Tref > Ts[0] else Ts[0]
+        narrow = (min(Tref, Ts[1]), max(Tref, Ts[1]) + 0.5 * (Ts[2] - Ts[1]))
+        for cls_name in ('RawData', 'Incomplete', 'Group'):
+            desc = dict(N=N, spacing=spacing, shape=shape, placement=pl,
+                        range='narrower-than-table', cls=cls_name)
+            if only is not None and only != desc:
+                continue
+            R.evals += 1
+            R.nontrivial += 1
+            try:
+                k = c05.build(cls_name, -12.5, 31.25, Ts, Cps, Tref, narrow, list(range(N)))
+            except Exception as e:      # noqa
+                R.outcomes['narrow-range:refused(%s)' % type(e).__name__] += 1
+                continue
+            R.outcomes['narrow-range:constructed'] += 1
+            got = k.get_range()
+            judge(R, 'K-narrow:' + cls_name, k, got, [t for t in Ts if got and got[0] <= t <= got[1]],
+                  Tref, [k], dict(kind='K', desc=desc, what=str(desc)), lambda p: True)
     R.sample(dict(table=Ts[:4], T_ref=Tref, placement=pl), limit=1)
 
 
